@@ -156,3 +156,27 @@ class Tables:
                 if p["name"] == name:
                     return p["default"]
         return None
+
+    def mspec_type(self, c, member):
+        for k in self.chain(c):
+            for ms in self.C[k]["mspecs"]:
+                if ms["name"] == member:
+                    return ms["type"]
+        return None
+
+    def child_class(self, c, member, builder_cls):
+        """the class a user puts under this member: what the MemberSpec (info(), add()) declares; falls back to the
+        class the builder instantiates when the MemberSpec names no binding class"""
+        t = self.mspec_type(c, member)
+        return t if t in self.C else builder_cls
+
+    def class_mismatches(self):
+        """(class, member, MemberSpec type, builder class) where the two differ"""
+        out = []
+        for c in self.order:
+            for b in self.C[c].get("bld_kids", []):
+                if b.get("cls") and b["kind"] in ("obj", "objlist"):
+                    t = self.mspec_type(c, b["py"])
+                    if t is not None and t != b["cls"]:
+                        out.append((c, b["py"], t, b["cls"]))
+        return out
